@@ -60,7 +60,7 @@ class Attr:
 TYPES = {"str": 3, "int": 0x10, "hex": 0x11, "bool": 0x12, "ref": 1, "dimen": 5, "float": 4, "attr": 2}
 
 
-def write(root, namespaces=(("android", ANDROID_NS),), utf8=False):
+def write(root, namespaces=(("android", ANDROID_NS),), utf8=False, attr_size=20):
     """-> bytes of the binary XML document"""
     pool = Pool(utf8)
     # attribute names with resource ids must come first in the pool (resource map is index-aligned)
@@ -93,8 +93,8 @@ def write(root, namespaces=(("android", ANDROID_NS),), utf8=False):
             else:
                 raw = NULL
                 data = {"bool": lambda: 0xFFFFFFFF if v else 0}.get(kind, lambda: v & 0xFFFFFFFF)()
-            attrs += struct.pack("<IIIHBBI", pool.add(a.ns), pool.add(a.name), raw, 8, 0, TYPES[kind], data)
-        ext = struct.pack("<IIHHHHHH", pool.add(e.ns), pool.add(e.name), 0x14, 0x14, len(e.attrs), 0, 0, 0) + attrs
+            attrs += struct.pack("<IIIHBBI", pool.add(a.ns), pool.add(a.name), raw, 8, 0, TYPES[kind], data) + b"\xAB" * (attr_size - 20)
+        ext = struct.pack("<IIHHHHHH", pool.add(e.ns), pool.add(e.name), 0x14, attr_size, len(e.attrs), 0, 0, 0) + attrs
         body += node_hdr(0x0102, ext)
         if e.text is not None:
             body += node_hdr(0x0104, struct.pack("<IHBBI", pool.add(e.text), 8, 0, 0, 0))
